@@ -53,6 +53,10 @@ def parse_type(s: str, named: Dict[str, Any]) -> tuple:
     s = s.strip()
     if s in ("int", "float", "bool", "none", "nat"):
         return (s,)
+    if s == "shape2d":
+        return ("shape2d",)
+    if s.startswith("xy[") and s.endswith("]"):
+        return ("xy", parse_type(s[3:-1], named))
     if s.startswith("opt[") and s.endswith("]"):
         return ("opt", parse_type(s[4:-1], named))
     if s.startswith("list[") and s.endswith("]"):
@@ -101,6 +105,10 @@ class Ctx:
             return "Bool"
         if k == "none":
             return "Unit"
+        if k == "xy":
+            return f"({self.lean_type(t[1])} × {self.lean_type(t[1])})"   # (x, y)
+        if k == "shape2d":
+            return "(Int × Int)"                                           # (x, y) = (nx, ny)
         if k == "opt":
             return f"(Option {self.lean_type(t[1])})"
         if k == "list":
@@ -153,6 +161,17 @@ class Tup:
         return ("tuple", tuple(i.ty for i in self.items))
 
 
+class XYv:
+    """an `XY` / `Index2d` / `Resolution` / `Shape2d` value: the pair of its x and y; a `Shape2d` iterates as (y, x)"""
+
+    def __init__(self, x, y, shape: bool = False):
+        self.x, self.y, self.shape = x, y, shape
+
+    @property
+    def ty(self):
+        return ("shape2d",) if self.shape else ("xy", self.x.ty)
+
+
 class Rec:
     """symbolic record: a narrowed slice or a structure under construction"""
 
@@ -160,6 +179,10 @@ class Rec:
         self.ty = ty
         self.fields = fields
 
+
+# constructor functions of odc.geo.types: argument order and whether the result is a Shape2d
+XY_CTORS = {"xy_": ("xy", False), "ixy_": ("xy", False), "resxy_": ("xy", False), "wh_": ("xy", True),
+            "yx_": ("yx", False), "iyx_": ("yx", False), "resyx_": ("yx", False), "shape_": ("yx", True)}
 
 LEAN_KEYWORDS = set(
     """in from at end do then else if let have show fun match with by open local prefix section namespace def theorem
@@ -266,9 +289,21 @@ class FnTranslator:
         return f"(.ok {paren(term)})" if self.res else term
 
     # -- coercions
+    def as_xy(self, cv) -> Optional[XYv]:
+        if isinstance(cv, XYv):
+            return cv
+        if isinstance(cv, V) and cv.ty[0] in ("xy", "shape2d"):
+            t = INT if cv.ty[0] == "shape2d" else cv.ty[1]
+            return XYv(V(f"{paren(cv.lean)}.1", t), V(f"{paren(cv.lean)}.2", t), cv.ty[0] == "shape2d")
+        return None
+
     def materialise(self, cv) -> V:
         if isinstance(cv, V):
             return cv
+        if isinstance(cv, XYv):
+            a, b, ty = self.num2(self.materialise(cv.x), self.materialise(cv.y), None) if not cv.shape else \
+                (self.coerce(cv.x, INT, None), self.coerce(cv.y, INT, None), INT)
+            return V(f"({a.lean}, {b.lean})", ("shape2d",) if cv.shape else ("xy", ty))
         if isinstance(cv, Tup):
             items = [self.materialise(i) for i in cv.items]
             return V("(" + ", ".join(i.lean for i in items) + ")", ("tuple", tuple(i.ty for i in items)))
@@ -289,6 +324,15 @@ class FnTranslator:
         raise Untranslatable(f"{self.info.py}: cannot materialise {cv}")
 
     def coerce(self, cv, ty: tuple, node) -> V:
+        if ty[0] in ("xy", "shape2d"):
+            xy = self.as_xy(cv)
+            if xy is None:
+                self.fail(node, f"value of type {fmt_ty(cv.ty)} used where {fmt_ty(ty)} is expected")
+            t = INT if ty[0] == "shape2d" else ty[1]
+            a, b = self.coerce(xy.x, t, node), self.coerce(xy.y, t, node)
+            return V(f"({a.lean}, {b.lean})", ty)
+        if isinstance(cv, XYv):
+            self.fail(node, f"XY value used where {fmt_ty(ty)} is expected")
         if isinstance(cv, Tup) and ty[0] == "intorpair" and len(cv.items) == 2:
             nm = self.ctx.named[ty[1]]
             a, b = (self.coerce(i, INT, node) for i in cv.items)
@@ -334,6 +378,13 @@ class FnTranslator:
     def tuple_components(self, cv) -> List[Any]:
         if isinstance(cv, Tup):
             return cv.items
+        xy = self.as_xy(cv)
+        if xy is not None:
+            if xy.shape:
+                return [xy.y, xy.x]   # `Shape2d.__iter__`: (ny, nx)
+            raise Untranslatable(f"{self.info.py}: an XY value is not iterable (use .xy / .yx)")
+        if isinstance(cv, V) and cv.ty[0] == "struct" and "iter" in self.ctx.named[cv.ty[1]]:
+            return [self.attr(cv, f, None) for f in self.ctx.named[cv.ty[1]]["iter"]]
         if isinstance(cv, V) and cv.ty[0] == "tuple":
             n = len(cv.ty[1])
             out = []
@@ -378,6 +429,17 @@ class FnTranslator:
         return self.attr(base, node.attr, node)
 
     def attr(self, base, name: str, node):
+        xy = self.as_xy(base)
+        if xy is not None:
+            if name in ("x", "lon"):
+                return xy.x
+            if name in ("y", "lat"):
+                return xy.y
+            if name in ("xy", "wh", "lonlat"):
+                return Tup([xy.x, xy.y])
+            if name in ("yx", "shape", "latlon"):
+                return Tup([xy.y, xy.x])
+            self.fail(node, f"attribute '.{name}' of an XY value")
         if isinstance(base, Rec):
             if name in base.fields:
                 return base.fields[name]
@@ -394,6 +456,12 @@ class FnTranslator:
                 return self.attr(base, alias, node)
             if isinstance(alias, list):
                 return Tup([self.attr(base, a, node) for a in alias])
+            if isinstance(alias, dict):
+                if "xy" in alias or "shape" in alias:
+                    fx, fy = alias.get("xy") or alias.get("shape")
+                    return XYv(self.attr(base, fx, node), self.attr(base, fy, node), "shape" in alias)
+                if "none" in alias:
+                    return V("()", NONE)   # declared abstraction: the attribute is outside the model (e.g. the CRS)
             q = f"{spec.get('pyclass', base.ty[1])}.{name}"
             prop = self.ctx.funcs.get(q)
             if prop is not None and prop.node is not None and any(ast.unparse(d) == "property" for d in prop.node.decorator_list):
@@ -402,6 +470,10 @@ class FnTranslator:
 
     def ex_Subscript(self, node, env):
         base = self.ex(node.value, env)
+        if isinstance(base, V) and base.ty[0] == "struct":
+            q = f"{self.ctx.named[base.ty[1]].get('pyclass', base.ty[1])}.__getitem__"
+            if q in self.ctx.funcs and not isinstance(node.slice, ast.Slice):
+                return self.call_known(self.ctx.funcs[q], [node.slice], [], env, node, base)
         if isinstance(base, V) and base.ty[0] == "list" and not isinstance(node.slice, ast.Slice):
             i = self.ex(node.slice, env)
             if not (isinstance(i, V) and i.ty == INT):
@@ -691,6 +763,11 @@ class FnTranslator:
                 # a normaliser that is the identity on the modelled representation (declared in the manifest,
                 # exercised by the self-check through the real function)
                 return self.ex(node.args[0], env)
+            if name in XY_CTORS and name not in self.ctx.funcs and not node.keywords and len(node.args) in (1, 2):
+                return self.xy_ctor(name, [self.ex(a, env) for a in node.args], node)
+            if name in ("Shape2d", "Index2d") and not node.args and {k.arg for k in node.keywords} == {"x", "y"}:
+                kw = {k.arg: self.ex(k.value, env) for k in node.keywords}
+                return XYv(kw["x"], kw["y"], name == "Shape2d")
             b = getattr(self, "call_" + name, None)
             if b is not None and name not in self.ctx.funcs:
                 if node.keywords:
@@ -718,6 +795,12 @@ class FnTranslator:
                         if not isinstance(c, str) and c[0] not in fields:
                             fields[c[0]] = self.ex(ast.Constant(value=c[1]), env)
                     return Rec(("struct", tname), fields)
+        if isinstance(fn, ast.Attribute) and fn.attr == "map" and len(node.args) == 1 and not node.keywords \
+                and not (isinstance(fn.value, ast.Name) and fn.value.id not in env):
+            obj = self.ex(fn.value, env)
+            xy = self.as_xy(obj)
+            if xy is not None:
+                return self.xy_map(xy, node.args[0], env, node)
         if isinstance(fn, ast.Attribute):
             # method call  obj.method(...)  /  Class.staticmethod(...)
             if isinstance(fn.value, ast.Name) and fn.value.id not in env:
@@ -779,6 +862,43 @@ class FnTranslator:
             self.pre.append(("bind", tmp, call))
             return V(tmp, callee.ret)
         return V(f"({call})", callee.ret)
+
+    def xy_ctor(self, name: str, vals, node):
+        order, shape = XY_CTORS[name]
+        if len(vals) == 2:
+            a, b = vals
+        else:
+            xy = self.as_xy(vals[0])
+            if xy is not None:
+                return XYv(xy.x, xy.y, shape or xy.shape)
+            comps = self.tuple_components(vals[0])
+            if len(comps) != 2:
+                self.fail(node, f"{name}() of something that is not a pair")
+            a, b = comps
+        x, y = (a, b) if order == "xy" else (b, a)
+        if not all(isinstance(v, V) and v.ty in (INT, FLOAT) for v in (x, y)):
+            self.fail(node, f"{name}() of non-numbers")
+        return XYv(x, y, shape)
+
+    def xy_map(self, xy: XYv, f, env, node):
+        """`XY.map(op)` = `xy_(op(self.x), op(self.y))`: x first"""
+        out = []
+        for comp in (xy.x, xy.y):
+            if isinstance(f, ast.Lambda):
+                a = f.args
+                if len(a.args) != 1 or a.vararg or a.kwarg or a.kwonlyargs or a.defaults:
+                    self.fail(node, "lambda with other than one plain parameter")
+                env2 = dict(env)
+                env2[a.args[0].arg] = comp
+                out.append(self.ex(f.body, env2))
+            elif isinstance(f, ast.Name):
+                key = self.fresh("maparg")
+                env2 = dict(env)
+                env2[key] = comp
+                out.append(self.ex(ast.Call(func=f, args=[ast.Name(id=key, ctx=ast.Load())], keywords=[], lineno=node.lineno), env2))
+            else:
+                self.fail(node, "XY.map() of something other than a function name or a lambda")
+        return XYv(out[0], out[1], xy.shape)
 
     def call_known(self, callee: FnInfo, args, keywords, env, node, selfobj):
         if callee.error:
@@ -1227,7 +1347,9 @@ class FnTranslator:
 
     def bind_value(self, name: str, value, env, lets: List[tuple]):
         """bind python name to value; non-atomic Lean terms get a `let`"""
-        if isinstance(value, Tup):
+        if isinstance(value, XYv):
+            env[name] = XYv(self._bind_part(name + "_x", value.x, lets), self._bind_part(name + "_y", value.y, lets), value.shape)
+        elif isinstance(value, Tup):
             env[name] = Tup([self._bind_part(name, i, lets) for i in value.items])
         elif isinstance(value, Rec):
             env[name] = Rec(value.ty, {k: self._bind_part(f"{name}_{k}", f, lets) for k, f in value.fields.items()})
@@ -1493,6 +1615,10 @@ def rat_lit(f: Fraction) -> str:
 def fmt_ty(t) -> str:
     if t[0] in ("int", "float", "bool", "none", "nat"):
         return t[0]
+    if t[0] == "xy":
+        return f"xy[{fmt_ty(t[1])}]"
+    if t[0] == "shape2d":
+        return "shape2d"
     if t[0] == "opt":
         return f"opt[{fmt_ty(t[1])}]"
     if t[0] == "list":
